@@ -359,6 +359,11 @@ def f_long_streams(ids, rng, n, ifaces=("rec",), tag="long", maxlen=400, shapes=
         calls = [INIT]
         for _ in range(rng.randrange(1, 4)):
             calls.append({"name": "draw_iter", "px": long_stream(rng, lw, lh, oob=oob, maxlen=rng.choice([20, 120, maxlen]))})
+            if rng.random() < 0.25:
+                cand = [(r2, m2) for (r2, m2) in ORIENTS if lsize(w, h, r2) == (lw, lh)]
+                r2, m2 = rng.choice(cand)
+                calls.append({"name": "set_orientation", "rot": r2, "mir": m2})
+                calls.append({"name": "draw_iter", "px": calls[-2]["px"][:60]})      # the same columns again
         out.append(scn(ids, c, calls, tag=tag))
     return out
 
@@ -414,7 +419,10 @@ def f_contig_tiny(ids, rng, sample=1.0, ifaces=("rec",), sizes=((2, 3), (3, 2), 
                 rects = list(all_rects(lw, lh, lo=-2, extra=1))
                 rng.shuffle(rects)
                 iface = rng.choice(ifaces)
-                c = cfg(model, w, h, ox, oy, rot, mir, iface=iface, buf=rng.choice([2, 3, 64]))
+                mdl = model
+                if (W, H) in ((2, 3), (3, 2)) and iface in ("spi", "p8", "rec") and rng.random() < 0.3:
+                    mdl = "tiny666_%dx%d" % (W, H)
+                c = cfg(mdl, w, h, ox, oy, rot, mir, iface=iface, buf=rng.choice([3, 4, 5, 7, 64] if mdl != model else [2, 3, 64]))
                 calls = [INIT, {"name": "clear", "c": 3}]
                 if rng.random() < reorient:
                     # the same fills after a runtime orientation change that keeps the logical size
@@ -581,9 +589,10 @@ def f_parallel(ids, rng, sample=1.0, big=0):
         n = rng.choice([1, 2, 3])
         v = rng.randrange(1 << wbits)
         cnt = rng.choice([100, 1000, 65535, 65536, 65537, 100000])
+        # (each strobe is two pin operations, each changed data pin one more: the budget must cover the legitimate work)
         out.append(scn(ids, xcfg(iface), [RAMWR, {"name": "xport.send_repeated_pixel", "n": n, "pixel": [v] * n, "count": split16(cnt)},
                                          RAMWR, {"name": "xport.send_repeated_pixel", "n": 2, "pixel": [v, v ^ 1], "count": split16(min(cnt, 2000))}],
-                       tag="par-big"))
+                       tag="par-big", budget=4 * cnt * n + 100000))
     return out
 
 
@@ -655,7 +664,13 @@ def f_model_init(ids, rng, full=False, after=True):
             kinds.append((rec, True))
         for (iface, direct) in kinds:
             for (bgr, (rot, mir), inv, refv, refh, rst) in option_sets(rng, full):
-                c = cfg(name, None, None, None, None, rot, mir, iface=iface, buf=rng.choice([3, 16, 64]), rst=rst and not direct,
+                if rng.random() < 0.35:
+                    # a panel window with unequal margins somewhere in the framebuffer
+                    pw = rng.randrange(1, W + 1); ph = rng.randrange(1, H + 1)
+                    win = (pw, ph, rng.choice([0, W - pw, rng.randrange(0, W - pw + 1)]), rng.choice([0, H - ph, rng.randrange(0, H - ph + 1)]))
+                else:
+                    win = (None, None, None, None)
+                c = cfg(name, win[0], win[1], win[2], win[3], rot, mir, iface=iface, buf=rng.choice([3, 16, 64]), rst=rst and not direct,
                         bgr=bgr, inv=inv, refv=refv, refh=refh)
                 if direct:
                     out.append(scn(ids, c, [{"name": "model_init"}], tag="model-init-direct"))
@@ -739,6 +754,8 @@ def f_scroll(ids, rng, nrandom=200, offsets="sample"):
             c = cfg(name, 1, 1, 0, 0, rot, mir, iface=iface)
             calls = [INIT]
             for (t, b) in pairs[chunk:chunk + 40]:
+                if rng.random() < 0.05:
+                    calls.append({"name": rng.choice(["sleep", "wake"])})      # scrolling set-up is independent of the power state
                 calls.append({"name": "scroll_region", "top": t, "bottom": b})
                 if rng.random() < 0.3:
                     calls.append({"name": "scroll_offset", "v": rng.choice(bv + [rng.randrange(65536)])})
@@ -810,6 +827,8 @@ def fault_bases(ids, rng, quick):
                         {"name": "fill_solid", "rect": [0, 0, lw, 1], "c": 0x0C0C},
                         {"name": "set_pixels", "win": [0, 0, lw - 1, lh - 1], "colors": list(range(31, 31 + lw * lh))}]
                 rng.shuffle(post)
+                if rng.random() < 0.5:
+                    post.insert(0, dict(op2))           # the application simply retries the call that failed
                 s = scn(ids, c, pre + [op2] + post, tag="fault-op")
                 s["_target"] = len(pre) + 1
                 s["_ksample"] = (1.0 if iface in ("spi", "rec") else 0.25) if quick else 1.0
@@ -1012,13 +1031,17 @@ def f_testimage_display(ids, rng, quick):
                         continue
                     # staging buffers that are / are not a whole number of pixels
                     c = cfg(model, w, h, ox, oy, rot, mir, iface=iface, buf=rng.choice([7, 64, 100, 512]))
-                    out.append(scn(ids, c, [INIT, {"name": "test_image"}], tag="testimage"))
+                    calls = [INIT, {"name": "test_image"}]
+                    if rng.random() < 0.5:
+                        r2, m2 = rng.choice(ORIENTS)
+                        calls += [{"name": "set_orientation", "rot": r2, "mir": m2}, {"name": "test_image"}]
+                    out.append(scn(ids, c, calls, tag="testimage"))
     return out
 
 
 # ------------------------------------------------------------------------- small-alphabet call sequences (state carried between calls)
 
-def f_small_alphabet(ids, rng, n, ifaces=("spi",), sizes=((2, 2), (3, 2), (2, 3), (4, 3)), seq=(3, 9), tag="smallalpha"):
+def f_small_alphabet(ids, rng, n, ifaces=("spi",), sizes=((2, 2), (3, 2), (2, 3), (4, 3)), seq=(3, 9), tag="smallalpha", p666=0.15):
     """random call sequences over a deliberately tiny alphabet (two colours, a few rectangles), so that calls
     repeat colours, sizes and positions of earlier calls: finds state that survives from one call to the next
     (staging buffers, bus caches, cached address modes)"""
@@ -1026,17 +1049,19 @@ def f_small_alphabet(ids, rng, n, ifaces=("spi",), sizes=((2, 2), (3, 2), (2, 3)
     for _ in range(n):
         W, H = rng.choice(sizes)
         model = "tiny565_%dx%d" % (W, H)
+        iface = rng.choice(ifaces)
+        if (W, H) in ((2, 3), (3, 2)) and iface in ("spi", "p8", "rec") and rng.random() < p666 * 3:
+            model = "tiny666_%dx%d" % (W, H)          # three-byte pixels
         w = rng.randrange(1, W + 1); h = rng.randrange(1, H + 1)
         ox = rng.randrange(0, W - w + 1); oy = rng.randrange(0, H - h + 1)
         rot, mir = rng.choice(ORIENTS)
         lw, lh = lsize(w, h, rot)
         A = rng.choice([0x0000, 0x00FF, 0x1234, 0xFFFF, 0x0101]); B = (A + 1) % 65536
         rects = [[0, 0, lw, lh], [0, 0, lw, 1], [0, 0, 1, lh], [lw - 1, lh - 1, 1, 1], [0, 0, max(lw - 1, 1), max(lh - 1, 1)]]
-        iface = rng.choice(ifaces)
-        c = cfg(model, w, h, ox, oy, rot, mir, iface=iface, buf=rng.choice([2, 3, 4, 5, 6, 8, 64]))
+        c = cfg(model, w, h, ox, oy, rot, mir, iface=iface, buf=rng.choice([3, 4, 5, 6, 8, 64] if "666" in model else [2, 3, 4, 5, 6, 8, 64]))
         calls = [INIT]
         for _ in range(rng.randrange(*seq)):
-            k = rng.randrange(7)
+            k = rng.randrange(8)
             col = rng.choice([A, A, B])
             if k == 0:
                 calls.append({"name": "fill_solid", "rect": rng.choice(rects), "c": col})
@@ -1056,11 +1081,14 @@ def f_small_alphabet(ids, rng, n, ifaces=("spi",), sizes=((2, 2), (3, 2), (2, 3)
                 calls.append({"name": "draw_iter", "px": [[min(x0 + i, lw - 1), y0, col if i == 0 else rng.choice([A, B])] for i in range(m)]})
             elif k == 5:
                 calls.append({"name": "set_pixel", "x": rng.randrange(lw), "y": rng.randrange(lh), "c": col})
-            else:
+            elif k == 6:
                 r2, m2 = rng.choice(ORIENTS)
                 if lsize(w, h, r2) == (lw, lh):         # keep the rectangles valid
                     calls.append({"name": "set_orientation", "rot": r2, "mir": m2})
                     rot, mir = r2, m2
+            else:
+                # power state changes in between (drawing while asleep is allowed; the controller keeps its memory)
+                calls.append({"name": rng.choice(["sleep", "wake", "wake"])})
         out.append(scn(ids, c, calls, tag=tag))
     return out
 
